@@ -46,7 +46,7 @@ def _key_eq(idxs, key):
 
 def cond_of(idxs, keys, total):
     """z3 condition: the index tuple is one of `keys`"""
-    keys = list(keys)
+    keys = sorted(keys)
     if not keys:
         return z3.BoolVal(False)
     if len(keys) == total:
@@ -54,7 +54,7 @@ def cond_of(idxs, keys, total):
     if len(keys) > total // 2 and total <= MAX_TABLE:
         # cheaper as a negation
         allk = set(itertools.product(*[range(i.size) for i in idxs]))
-        other = allk - set(keys)
+        other = sorted(allk - set(keys))
         return z3.Not(z3.Or(*[_key_eq(idxs, k) for k in other])) if other else z3.BoolVal(True)
     return z3.Or(*[_key_eq(idxs, k) for k in keys])
 
